@@ -1335,10 +1335,51 @@ func c17Stale(e *Env) {
 	var filler *core.FuncInfo
 	var flag, cache *types.Var
 	for _, fi := range declaredNonTest(w) {
-		if fi.Decl.Body == nil || recvNamed(fi.Obj) != nt || len(fi.Decl.Body.List) < 3 {
+		if fi.Decl.Body == nil || recvNamed(fi.Obj) != nt {
 			continue
 		}
 		info := fi.Pkg.TypesInfo
+		// the same filler written the other way round: `if !recv.F { recv.C.Parse…(…); recv.F = true }`
+		for _, s := range fi.Decl.Body.List {
+			is2, ok := s.(*ast.IfStmt)
+			if !ok || is2.Else != nil || filler != nil {
+				continue
+			}
+			u, ok := unparen(is2.Cond).(*ast.UnaryExpr)
+			if !ok || u.Op != token.NOT {
+				continue
+			}
+			f2 := usedVar(info, u.X)
+			if f2 == nil || !f2.IsField() {
+				continue
+			}
+			var c2 *types.Var
+			sets := false
+			for _, bs := range is2.Body.List {
+				switch x := bs.(type) {
+				case *ast.ExprStmt:
+					if call, ok := x.X.(*ast.CallExpr); ok {
+						if se, ok := unparen(call.Fun).(*ast.SelectorExpr); ok {
+							if v := usedVar(info, se.X); v != nil && v.IsField() && c2 == nil {
+								c2 = v
+							}
+						}
+					}
+				case *ast.AssignStmt:
+					if len(x.Lhs) == 1 && len(x.Rhs) == 1 && usedVar(info, x.Lhs[0]) == f2 {
+						if id, ok := unparen(x.Rhs[0]).(*ast.Ident); ok && id.Name == "true" {
+							sets = true
+						}
+					}
+				}
+			}
+			if c2 != nil && sets {
+				filler, flag, cache = fi, f2, c2
+			}
+		}
+		if len(fi.Decl.Body.List) < 3 {
+			continue
+		}
 		is, ok := fi.Decl.Body.List[0].(*ast.IfStmt)
 		if !ok || len(is.Body.List) != 1 {
 			continue
